@@ -1872,3 +1872,38 @@ package moss
 //@   loop 1: invariant iter != nil && iterMirror(iter) && distinctCur(iter) && (forall a *cursor, b *cursor :: a != b && a.sc != nil ==> a.sc != b.sc)
 //@ func iteratorBytesEqual$loops
 //@   loop 1: invariant 0 <= i && i <= len(a)
+
+// ---- closing a store handle (C15) ---------------------------------------------------------------------------------------
+// One count less on the store; only the last handle releases the one count
+// the store holds on its current footer, exactly once.
+//@ func (s *Store) Close() error
+//@   props C15 C02
+//@   requires s != nil
+//@   modifies s.refs, s.footer, heap(Footer.refs), heap(Footer.SegmentLocs), heap(Footer.ss), heap(Footer.ChildFooters), heap(mmapRef.refs), heap(mmapRef.buf), heap(mmapRef.fref), heap(mmapRef.mm), heap(FileRef.refs), heap(FileRef.file), heap(FileRef.beforeCloseCallbacks), heap(FileRef.afterCloseCallbacks), ioFailed
+//@   ensures @count s.refs == old(s.refs) - 1
+//@   ensures @kept s.refs > 0 ==> s.footer == old(s.footer) && (forall g *Footer :: g.refs == old(g.refs))
+//@   ensures @released s.refs <= 0 && old(s.footer) != nil ==> s.footer == nil && old(s.footer).refs == old(old(s.footer).refs) - 1
+//@   ensures @othersKept forall g *Footer :: g != old(s.footer) && footerDepth(g) <= 0 ==> g.refs == old(g.refs)
+
+// ---- writing one segment (C04) ------------------------------------------------------------------------------------------
+// The location returned for a persisted segment: both sections start on a
+// page boundary at or after the requested position, the key/value bytes
+// start after the end of the operation words, and the totals are the
+// segment's.  (What the two writer goroutines report over the channel - the
+// byte counts - is outside the contracts.)
+//@ func Uint64SliceToByteSlice(in []uint64) ([]byte, error)
+//@   trusted unsafe reinterpretation of the words as bytes: 8 bytes per word over the same memory
+//@   ensures r1 == nil && len(r0) == len(in) * 8
+//@ func persistBasicSegment(s Segment, file File, pos int64, options *StoreOptions) (rv SegmentLoc, err error)
+//@   dead kvsBuf, err := Uint64SliceToByteSlice(
+//@   props C04 C05
+//@   attr obligations ensures
+//@   attr arith native
+//@   requires 0 <= pos && pos <= 1152921504606846976 && StorePageSize > 0 && StorePageSize <= 1073741824
+//@   requires typeIs(s, "*segment") ==> ptrOf(s, "*segment") != nil && len(ptrOf(s, "*segment").kvs) <= 1152921504606846976
+//@   modifies *
+//@   ensures @aligned err == nil ==> rv.KvsOffset % StorePageSize == 0 && rv.BufOffset % StorePageSize == 0
+//@   ensures @ordered err == nil ==> rv.KvsOffset >= pos && rv.BufOffset >= rv.KvsOffset + len(ptrOf(s, "*segment").kvs) * 8
+//@   ensures @totals err == nil ==> rv.TotOpsSet == ptrOf(s, "*segment").totOperationSet && rv.TotOpsDel == ptrOf(s, "*segment").totOperationDel &&
+//@       rv.TotKeyByte == ptrOf(s, "*segment").totKeyByte && rv.TotValByte == ptrOf(s, "*segment").totValByte
+//@   loop 1: invariant kvsPos % StorePageSize == 0 && bufPos % StorePageSize == 0 && kvsPos >= pos && bufPos >= kvsPos + len(kvsBuf) && len(kvsBuf) == len(seg.kvs) * 8 && seg == ptrOf(s, "*segment")
